@@ -1,4 +1,5 @@
 import RxnModel.Proofs.Runner
+import RxnModel.Model.RunnerRF
 import RxnModel.Props.C20
 /-!
 # C04 — failure-free delivery: every record exactly once, per-split key order kept
@@ -205,6 +206,183 @@ theorem rf_step_is_fifo_step {ρ : Type} (g : ρ → List KEv) (maxSize : Nat) (
       cases a <;> simp_all [Reorder.inputOf]
     show (List.map g (Reorder.inputs (as ++ [a]))).drop (r.out ++ []).length = _
     rw [hin, List.append_nil]
+
+/-! ## the product system: the runner with the real fetcher (`Model/RunnerRF.lean`)
+
+Every run of the product — runner actions, the fetcher's own actions in any interleaving, `enq` = placeholder + `pAdd`,
+`take` = the router receiving from `Output` — keeps the ghost FIFO equal to what the fetcher still owes, the value the
+router receives is its head, and the runner component is reachable in `Model/Runner`. So every C04 theorem holds for the
+runner driven by the real fetcher's transition system, not only for the FIFO abstraction. -/
+
+open RunnerRF in
+structure Coupled {ρ : Type} (c : Cfg ρ) (maxSize : Nat) (hasDelay : Bool) (p : RunnerRF.PSt ρ) : Prop where
+  pend : p.r.rfPending = []
+  fifo : p.r.rfOut = ((Reorder.inputs p.rfas).map c.keyOf).drop p.rf.out.length
+  rfrun : Reorder.exec (List.map c.keyOf) (fun _ => false) true { st := Reorder.init maxSize hasDelay maxSize } p.rfas = some p.rf
+  reach : ∃ as', Runner.exec c (Runner.init maxSize hasDelay) as' = some p.r
+
+theorem coupled_rfStep {ρ : Type} (c : Cfg ρ) (maxSize : Nat) (hasDelay : Bool) (p q : RunnerRF.PSt ρ)
+    (a : Reorder.Act ρ) (o : List (List KEv)) (h : Coupled c maxSize hasDelay p) (hs : RunnerRF.rfStep c p a = some (q, o)) :
+    q.r = p.r ∧
+    Reorder.exec (List.map c.keyOf) (fun _ => false) true { st := Reorder.init maxSize hasDelay maxSize } q.rfas = some q.rf ∧
+    (∀ x, a = .pAdd x → o = [] ∧
+      ((Reorder.inputs q.rfas).map c.keyOf).drop q.rf.out.length = p.r.rfOut ++ [c.keyOf x]) ∧
+    (a = .recv → ∃ v, o = [v] ∧ p.r.rfOut = v :: ((Reorder.inputs q.rfas).map c.keyOf).drop q.rf.out.length) ∧
+    ((∀ x, a ≠ .pAdd x) → a ≠ .recv → ((Reorder.inputs q.rfas).map c.keyOf).drop q.rf.out.length = p.r.rfOut) := by
+  unfold RunnerRF.rfStep at hs
+  split at hs
+  · next s' o' hstep =>
+    simp only [Option.some.injEq, Prod.mk.injEq] at hs
+    obtain ⟨rfl, rfl⟩ := hs
+    have hf := rf_step_is_fifo_step c.keyOf maxSize hasDelay maxSize p.rfas p.rf a s' o' h.rfrun hstep
+    simp only at hf
+    refine ⟨rfl, ?_, ?_, ?_, ?_⟩
+    · show Reorder.exec _ _ _ _ (p.rfas ++ [a]) = _
+      rw [Reorder.exec_snoc, h.rfrun]; simp [hstep]
+    · intro x hx
+      obtain ⟨h1, h2⟩ := hf.1 x hx
+      exact ⟨h1, by rw [h.fifo]; exact h2⟩
+    · intro ha
+      obtain ⟨v, h1, h2⟩ := hf.2.1 ha
+      exact ⟨v, h1, by rw [h.fifo]; exact h2⟩
+    · intro h1 h2
+      rw [h.fifo]; exact (hf.2.2 h1 h2).2
+  · simp at hs
+
+/-- the coupling is an invariant of the product system -/
+theorem product_coupled {ρ : Type} (c : Cfg ρ) (maxSize : Nat) (hasDelay : Bool) (as : List (RunnerRF.PAct ρ)) :
+    ∀ (p p' : RunnerRF.PSt ρ), Coupled c maxSize hasDelay p → RunnerRF.exec c p as = some p' → Coupled c maxSize hasDelay p' := by
+  induction as with
+  | nil => intro p p' h he; simp [RunnerRF.exec] at he; subst he; exact h
+  | cons a as ih =>
+    intro p p' h he
+    simp only [RunnerRF.exec] at he
+    split at he
+    · simp at he
+    · next p1 hs =>
+      refine ih p1 p' ?_ he
+      obtain ⟨as', hreach⟩ := h.reach
+      -- a runner action on the runner component
+      have runCase : ∀ (a : Runner.Act ρ) (r' : Runner.St ρ), Runner.step c p.r a = some r' → a ≠ .enq → a ≠ .rfEmit →
+          (a = .sTake → ∀ r rest, p.r.stream ≠ .record r :: rest) → Coupled c maxSize hasDelay { p with r := r' } := by
+        intro a r' hr h1 h2 h3
+        obtain ⟨f1, f2⟩ := Runner.step_rf_frame c p.r r' a hr h1 h2 h3
+        exact ⟨by rw [f2]; exact h.pend, by rw [f1]; exact h.fifo, h.rfrun,
+          ⟨as' ++ [a], by rw [Runner.exec_snoc, hreach]; simpa using hr⟩⟩
+      cases a with
+      | run a =>
+        cases a with
+        | enq => simp [RunnerRF.step] at hs
+        | rfEmit => simp [RunnerRF.step] at hs
+        | sTake =>
+          simp only [RunnerRF.step] at hs
+          split at hs
+          · simp at hs
+          · next hne =>
+            simp only [Option.map_eq_some_iff] at hs
+            obtain ⟨r', hr, rfl⟩ := hs
+            exact runCase .sTake r' hr (by simp) (by simp) (by intro _ r rest hst; exact hne r rest hst)
+        | fetch rs =>
+          simp only [RunnerRF.step] at hs
+          split at hs
+          · simp only [Option.map_eq_some_iff] at hs
+            obtain ⟨r', hr, rfl⟩ := hs
+            exact runCase _ r' hr (by simp) (by simp) (by simp)
+          · simp at hs
+        | tick =>
+          simp only [RunnerRF.step] at hs
+          split at hs
+          · simp only [Option.map_eq_some_iff] at hs
+            obtain ⟨r', hr, rfl⟩ := hs
+            exact runCase _ r' hr (by simp) (by simp) (by simp)
+          · simp at hs
+        | barrier id =>
+          simp only [RunnerRF.step] at hs
+          split at hs
+          · simp only [Option.map_eq_some_iff] at hs
+            obtain ⟨r', hr, rfl⟩ := hs
+            exact runCase _ r' hr (by simp) (by simp) (by simp)
+          · simp at hs
+        | sAdd | sIsFull | sFlush | sSend | fire o | stale o | staleTok o t | oTok o | oTFlush o | oDone o | oRecv o =>
+          simp only [RunnerRF.step, Option.map_eq_some_iff] at hs
+          obtain ⟨r', hr, rfl⟩ := hs
+          exact runCase _ r' hr (by simp) (by simp) (by simp)
+      | rf a =>
+        have other : ∀ (q : RunnerRF.PSt ρ) (o : List (List KEv)), RunnerRF.rfStep c p a = some (q, o) →
+            (∀ x, a ≠ .pAdd x) → a ≠ .recv → Coupled c maxSize hasDelay q := by
+          intro q o hq h1 h2
+          obtain ⟨e1, e2, _, _, e5⟩ := coupled_rfStep c maxSize hasDelay p q a o h hq
+          exact ⟨by rw [e1]; exact h.pend, by rw [e1]; exact (e5 h1 h2).symm, e2, ⟨as', by rw [e1]; exact hreach⟩⟩
+        cases a with
+        | pAdd x => simp [RunnerRF.step] at hs
+        | recv => simp [RunnerRF.step] at hs
+        | pFlush => simp [RunnerRF.step] at hs
+        | pIsFull | fire | stale | tmoRecv | lock t | flushA t | flushB t | fetchErr q | fetchDone q | drainStart | drainNext | send =>
+          simp only [RunnerRF.step, Option.map_eq_some_iff] at hs
+          obtain ⟨⟨q, o⟩, hq, rfl⟩ := hs
+          exact other q o hq (by simp) (by simp)
+      | enq =>
+        simp only [RunnerRF.step] at hs
+        split at hs
+        · next rec rest hbuf =>
+          simp only [Option.map_eq_some_iff] at hs
+          obtain ⟨⟨q, o⟩, hq, rfl⟩ := hs
+          obtain ⟨e1, e2, e3, _, _⟩ := coupled_rfStep c maxSize hasDelay p q (.pAdd rec) o h hq
+          obtain ⟨_, hφ⟩ := e3 rec rfl
+          refine ⟨h.pend, hφ.symm, e2, ⟨as' ++ [.enq] ++ [.rfEmit], ?_⟩⟩
+          rw [Runner.exec_snoc, Runner.exec_snoc, hreach]
+          simp [Runner.step, hbuf, h.pend]
+        · simp at hs
+      | take =>
+        simp only [RunnerRF.step] at hs
+        split at hs
+        · next rec rest hspc htodo hstream =>
+          split at hs
+          · next q v hq =>
+            simp only [Option.some.injEq] at hs
+            subst hs
+            obtain ⟨e1, e2, _, e4, _⟩ := coupled_rfStep c maxSize hasDelay p q .recv [v] h hq
+            obtain ⟨v', hv, hφ⟩ := e4 rfl
+            simp at hv
+            subst hv
+            refine ⟨h.pend, by simp [hφ], e2, ⟨as' ++ [.sTake], ?_⟩⟩
+            rw [Runner.exec_snoc, hreach]
+            simp [Runner.step, hspc, htodo, hstream, hφ]
+          · simp at hs
+        · simp at hs
+
+theorem product_init_coupled {ρ : Type} (c : Cfg ρ) (maxSize : Nat) (hasDelay : Bool) :
+    Coupled c maxSize hasDelay (RunnerRF.init maxSize hasDelay : RunnerRF.PSt ρ) :=
+  ⟨rfl, rfl, rfl, ⟨[], rfl⟩⟩
+
+/-- **the runner component of every run of the product is a run of `Model/Runner`**, and the result the router receives
+from the real fetcher for a record placeholder is `keyOf` of that record (it is the head of the coupled FIFO) -/
+theorem product_refines_runner {ρ : Type} (c : Cfg ρ) (maxSize : Nat) (hasDelay : Bool) (as : List (RunnerRF.PAct ρ))
+    (p : RunnerRF.PSt ρ) (hrun : RunnerRF.exec c (RunnerRF.init maxSize hasDelay) as = some p) :
+    ∃ as', Runner.exec c (Runner.init maxSize hasDelay) as' = some p.r :=
+  (product_coupled c maxSize hasDelay as _ p (product_init_coupled c maxSize hasDelay) hrun).reach
+
+/-- **per-operator stream, with the real fetcher**: for every interleaving of the runner's goroutines with the
+fetcher's (both flushers, timer expiries, fetch completions in any order, the drain, back-pressure on `Output`) -/
+theorem product_per_operator_stream {ρ : Type} (c : Cfg ρ) (hunbuf : c.handoffBuffered = false) (maxSize : Nat)
+    (hasDelay : Bool) (as : List (RunnerRF.PAct ρ)) (p : RunnerRF.PSt ρ)
+    (hrun : RunnerRF.exec c (RunnerRF.init maxSize hasDelay) as = some p) (q : Nat) (hq : q < c.nOps) :
+    delivered p.r q ++ pendingFor p.r q ++ project c q p.r.stream = project c q p.r.logical ∧
+    (delivered p.r q).Sublist (expand c p.r.logical) ∧
+    p.r.ckpts = cutsOf p.r.logical 0 := by
+  obtain ⟨as', h⟩ := product_refines_runner c maxSize hasDelay as p hrun
+  exact ⟨per_operator_stream c hunbuf maxSize hasDelay as' p.r h q hq,
+    order_preserved c hunbuf maxSize hasDelay as' p.r h q hq, (barrier_cut c hunbuf maxSize hasDelay as' p.r h).1⟩
+
+/-- non-vacuity of the product: a record goes through the real fetcher (size flush, fetch, drain, `Output`) and the
+router hands it to its operator; a second record is flushed by the time-out flusher while the first is in flight -/
+example : (RunnerRF.exec demoCfg (RunnerRF.init 2 true)
+    [.run (.fetch [(1, 0), (2, 0)]), .enq, .rf .pIsFull, .rf .fire, .rf .tmoRecv, .rf (.lock .tmo), .rf (.flushA .tmo),
+     .rf (.flushB .tmo), .enq, .rf .pIsFull, .rf .fire, .rf .tmoRecv, .rf (.lock .tmo), .rf (.flushA .tmo), .rf (.flushB .tmo),
+     .rf (.fetchDone 1), .rf (.fetchDone 0), .rf .drainStart, .rf .drainNext, .rf .send, .rf .drainNext, .rf .send,
+     .take, .run .sAdd, .run .sIsFull, .take, .run .sAdd, .run .sIsFull, .run .sFlush, .run .sSend]).map
+      (fun p => (delivered p.r 0, p.r.stream.length, p.rf.out.length)) =
+    some ([.keyed ⟨[], 1, 0⟩, .keyed ⟨[], 2, 0⟩], 0, 2) := by decide
 
 /-! negative witness: the theorems are about the *unbuffered* hand-off of `batchingOperator` (the router blocks until
 the operator goroutine takes the batch). With a one-slot channel a full batch can sit in the channel while the
